@@ -588,7 +588,7 @@ static int op_tlsdial(int argc, char **argv, FILE *out) {
     pthread_t th;
     X509 *x;
     X509_NAME *nm;
-    char *v, *tok, *save, *tr, *hostsrc[2], hostbuf[64];
+    char *v, *tok, *save, *tr, *hostsrc[3], hostbuf[64];
     int g0, g1, other, len, one = 1, r;
     uint8_t *bb;
     long t0;
@@ -648,8 +648,20 @@ static int op_tlsdial(int argc, char **argv, FILE *out) {
     if ((v = kv(g1 - g0, argv + g0, "servername")) && strcmp(v, "."))
         conf.servername = hxstr(v);
     snprintf(hostbuf, sizeof(hostbuf), "127.0.0.1:%d", ntohs(a.sin_port));
-    hostsrc[0] = hostbuf;
-    hostsrc[1] = NULL;
+    /* extra=before|after: the block names a second host, 127.0.0.2 (nobody listens on its port 1), before or after the one reached */
+    v = kv(g1 - g0, argv + g0, "extra");
+    if (v && !strcmp(v, "before")) {
+        hostsrc[0] = "127.0.0.2:1";
+        hostsrc[1] = hostbuf;
+        hostsrc[2] = NULL;
+    } else if (v && !strcmp(v, "after")) {
+        hostsrc[0] = hostbuf;
+        hostsrc[1] = "127.0.0.2:1";
+        hostsrc[2] = NULL;
+    } else {
+        hostsrc[0] = hostbuf;
+        hostsrc[1] = NULL;
+    }
     if (!addhostport(&conf.hostports, hostsrc, "2083", 0) || !resolvehostports(conf.hostports, AF_UNSPEC, SOCK_STREAM))
         return 0;
     if ((v = kv(g1 - g0, argv + g0, "terms")) && strcmp(v, "."))
